@@ -40,12 +40,16 @@ TR_USE = ('#[allow(unused_imports)] use vstd::prelude::*; #[allow(unused_imports
 TR_HINTS = ('broadcast use crate::vstdx::group_cow;\nbroadcast use crate::k256_model::ax_choice_not;\n'
             'proof { crate::vspec::use_algebra::<%s>(); crate::vspec::use_id_order::<%s>(); }\n' % (TR_TYPE, TR_TYPE))
 
-CFG['modules'] = CFG['modules'] + [('secp256k1_tr', os.path.join(REPO, TR_FILE))]
-CFG['foreign_prefixes'] = ['frost-secp256k1-tr/src']
-CFG['path_rewrites'] = [(r'\bcrate::', 'crate::secp256k1_tr::'), (r'\bfrost_core::', 'crate::'),
-                        (r'\bconst (\w+): &str\b', r"const \1: &'static str")]     # verus! needs the lifetime of a const reference spelled out
-CFG['module_use'] = {'secp256k1_tr': TR_USE}
-CFG['module_entry_hints'] = {'secp256k1_tr': TR_HINTS}
+# the module from the OTHER crate root (module entry with options, see extract.py `module_entry`): paths re-rooted into the one Verus crate
+CFG['modules'] = list(CFG['modules']) + [
+    ('secp256k1_tr', 'lib.rs', dict(
+        root=os.path.join(REPO, 'frost-secp256k1-tr/src'),
+        repo_prefix='frost-secp256k1-tr/src',
+        path_rewrites=[(r'\bcrate::', 'crate::secp256k1_tr::'), (r'\bfrost_core::', 'crate::'),
+                       (r'\bconst (\w+): &str\b', r"const \1: &'static str")],     # verus! needs the lifetime of a const reference spelled out
+        use=TR_USE, entry_hints=TR_HINTS,
+    )),
+]
 CFG['drop_trait_impls'] = [r'^RandomizedCiphersuite$']       # frost-rerandomized is a different unit (C17)
 # bodies that use k256 / sha2 / hash2curve APIs outside prelude/k256_model.rs: emitted as signature + assumed contract only
 CFG['elide_body'] = [r' :: Field for Secp256K1ScalarField :: ', r' :: Group for Secp256K1Group :: ', r' :: hash_to_array$', r' :: hash_to_scalar$',
@@ -54,6 +58,8 @@ CFG['contract_dirs'] = CFG['contract_dirs'] + [os.path.join(VERIF, 'contracts_tr
 CFG['prelude_files'] = CFG['prelude_files'] + ['prelude/k256_model.rs', 'lemmas/vspec_w.rs', 'lemmas/vspec_tr.rs', 'lemmas/vworld_tr.rs']
 CFG['prelude_modules'] = dict(CFG['prelude_modules'], k256_model=None, vspec_w=None, vspec_tr=None, vworld_tr=None)
 CFG['postlude_files'] = ['lemmas/vprops_tr.rs']
+# the Taproot file is EXTRACTED AND VERIFIED in this unit (its assumed functions are locked one by one, contracts/trusted_text.lock.json)
+CFG['trusted_files'] = {k: [p for p in v if p != 'C18'] for k, v in CFG.get('trusted_files', {}).items()}
 # frost-secp256k1-tr depends on frost-rerandomized, which enables frost-core's `internals` feature (cargo unifies features): the
 # `#[cfg(feature = "internals")]` constructors (Signature::new, GroupCommitment::from_element, BindingFactorList::new) exist in this build
 CFG['features'] = ['internals']
@@ -81,6 +87,7 @@ CFG['strip_clauses'] = {
     # transitively (they rely on a stripped clause of a callee, or on the default encoding of the signature codec hooks):
     K + 'keys.rs :: generate_with_dealer': ['value'],
     K + 'keys/dkg.rs :: part1': ['value'],
+    K + 'keys/refresh.rs :: refresh_dkg_part1': ['value'],
     K + 'signature.rs :: Signature<C> :: serialize': ['identity', 'value', 'length'],
     K + 'signature.rs :: Signature<C> :: deserialize': ['wrong_length', 'bad_R', 'bad_z', 'value'],
 }
